@@ -59,6 +59,52 @@ def frag(rnd):
     return rnd.choice(F)
 
 
+ERRLITS = ['"1"', "1.5", "'(0)", "'sym", "5", "-1", "(vector 1 2)", "(sorted-map \"a\" 1)", ":kw", "()", '"ab"', "'(1 \"x\" (2.5))", "(lambda (x) x)", "car", "(to-bytes \"ab\")",
+           "true", "(vector)", "'(a b)", "0", "(list 1 (vector 2) \"s\")"]
+
+
+def errmsg_programs(rnd, registry, per_callable):
+    """every registered callable applied to tuples of literal values of the wrong and the right kinds, each call under a
+    handler that prints the condition and its data: whatever text an error carries must be a function of the program"""
+    skip_pkg = {"time", "testing", "help", "golang"}
+    skip = {"load-file", "load-bytes", "debug-stack", "trace"}
+    out = []
+    for rec in registry:
+        if rec["pkg"] in skip_pkg or rec["name"] in skip:
+            continue
+        formals = rec.get("formals") or []
+        req = 0
+        for f in formals:
+            if f.startswith("&"):
+                break
+            req += 1
+        variadic = any(f.startswith("&") for f in formals)
+        name = rec["name"] if rec["pkg"] == "lisp" else rec["pkg"] + ":" + rec["name"]
+        calls = []
+        tuples = []
+        for _ in range(per_callable):
+            k = req + (rnd.randrange(0, 3) if variadic else 0)
+            if rnd.random() < 0.15:
+                k = max(0, k + rnd.choice([-1, 1]))
+            tuples.append([rnd.choice(ERRLITS) for _ in range(k)])
+        # every kind of value in the first position (and, for two or more arguments, in the second behind each kind of
+        # first argument the callable is likely to accept), the rest drawn at random
+        kmin = max(req, 1 if variadic else 0)
+        if kmin >= 1:
+            for a in ERRLITS:
+                tuples.append([a] + [rnd.choice(ERRLITS) for _ in range(max(kmin, 2 if variadic else kmin) - 1)])
+        if kmin >= 2 or variadic:
+            for a in ("(vector 1 2)", "'(0)", "(sorted-map \"a\" 1)", '"ab"', "5"):
+                for b in rnd.sample(ERRLITS, 6):
+                    tuples.append([a, b] + [rnd.choice(ERRLITS) for _ in range(max(kmin, 2) - 2)])
+        for t in tuples:
+            calls.append("(handler-bind ((condition (lambda (c &rest r) (debug-print c r) (format-string \"{} {}\" c r)))) (%s %s))" % (name, " ".join(t)))
+        # (each call is a top-level form of its own program text: one that changes the package or defines something
+        # does so for the calls after it, the same way in every run)
+        out.append("\n".join(calls))
+    return out
+
+
 def wide_program(rnd):
     return "\n".join(frag(rnd) for _ in range(rnd.randrange(2, 7)))
 
@@ -106,7 +152,13 @@ def _run(V, work, tier):
         listing.append({"id": "h-sym-" + pk, "seq": ["(help:help-package-symbols '%s)\n(help:help-package-symbols '%s true)" % (pk, pk)], "cfg": {}})
         listing.append({"id": "h-doc-" + pk, "seq": ["(help:help-package '%s)" % pk], "cfg": {}})
     listing.append({"id": "h-own", "seq": ["(in-package 'mine)\n(export 'zz 'aa 'mm 'aa)\n(export 'bb)\n(set 'zz 1)\n(defun aa () 1)\n(in-package 'user)\n(help:help-package-symbols 'mine)\n(use-package 'mine)\n(help:help-package-symbols 'user true)"], "cfg": {}})
-    allp = mdrv + wide + listing
+    rc, rout, rerr = run_driver(binary, ["registry", "all"], "", timeout=300)
+    if rc != 0:
+        raise MachineryError("registry dump failed: " + rerr[-500:])
+    registry = [json.loads(l) for l in rout.splitlines() if l.strip()]
+    errp = [{"id": "e%d" % i, "seq": [p], "cfg": {}} for i, p in enumerate(errmsg_programs(rnd, registry, 24 if thorough else 8))]
+    V.coverage["callables_with_error_text_checked"] = len(errp)
+    allp = mdrv + wide + listing + errp
     reps = 8 if thorough else 4
     # one process: every program `reps` times at shuffled positions (other runtimes ran other things in between)
     stream = []
